@@ -5,6 +5,7 @@ mod c08;
 mod c10;
 mod c12;
 mod c13;
+mod c16;
 mod c17;
 mod campaign;
 mod common;
@@ -29,6 +30,7 @@ fn main() {
         "C12" => c12::main(&parse_opts(&args[1..])),
         "C10" => c10::main(&parse_opts(&args[1..])),
         "C08" => c08::main(&parse_opts(&args[1..])),
+        "C16" => c16::main(&parse_opts(&args[1..])),
         "C17" => c17::main(&parse_opts(&args[1..])),
         "replay" => {
             let path = args.get(1).unwrap_or_else(|| usage());
@@ -46,6 +48,7 @@ fn main() {
                 (Some("histsim-decode"), _) => c10::replay_history(&body, path),
                 (Some("histsim-matrix"), _) => c17::replay(&body, path),
                 (Some("alistsim"), _) => c08::replay(&body, path),
+                (Some("parsim"), _) | (Some("parsim-peg"), _) => c16::replay(&body, path),
                 (Some("bersim"), Some("C12")) => {
                     campaign::replay_file(&body, path, &|c, o| c12::oracle_c12(c, o))
                 }
